@@ -422,7 +422,7 @@ func c04run(w *report.W) {
 
 func c04repeatRun(w *report.W) {
 	names := []string{"A", "B", "$N", "$A", "$$A"}
-	values := []string{"lit", "$A", "${B}", "$$A", "${A:-d}", "$RT", "p$A$B"}
+	values := []string{"lit", "$A", "${B}", "$$A", "${A:-d}", "$RT", "p$A$B", "", "${B-nob}"}
 	callers := []map[string]string{{}, {"A": "ra"}, {"A": "ra", "RT": "rt", "N": "A"}, {"N": "B", "B": "rb"}}
 	opts := len(names) * len(values)
 	n := 0
@@ -449,8 +449,9 @@ func c04repeatRun(w *report.W) {
 				}
 				w.P.Nontrivial++
 				w.Obs("repeat compared")
-				if fmt.Sprint(got.Echo) != fmt.Sprint(want.Echo) || got.Probe != want.Probe {
-					w.Violate(report.Violation{Kind: "repeated-string-stale", Case: "env block + steps repeating its texts: " + string(cb),
+				if fmt.Sprint(got.Echo) != fmt.Sprint(want.Echo) || got.Probe != want.Probe || got.Unset != want.Unset {
+					got.Echo, want.Echo = append(got.Echo, got.Probe, got.Unset), append(want.Echo, want.Probe, want.Unset)
+					w.Violate(report.Violation{Kind: "steps-after-env-block", Case: "env block + steps repeating its texts: " + string(cb),
 						Detail: fmt.Sprintf("step strings after Interpolate %q, want %q (each expanded once under the final environment)", got.Echo, want.Echo), Size: 8})
 				}
 			}
@@ -580,7 +581,7 @@ func init() {
 			"whose subtrees are shared through YAML aliases and of a document with 11-entry maps is replaced by a unique marker `sNNN_${X}_$$Y_\\$Z`; Pipeline.Interpolate on the real code is compared with " +
 			"the single-pass expansion mapped over the generic JSON tree of the pipeline before the call (everything but `signature`), order included; a failing expansion `${U?boom}` is injected at every " +
 			"position in turn (must be reported, except inside signatures); the run is repeated under the map-iteration seam: every order and every renamed-key-revisited answer for maps <=3 entries, " +
-			"<=k deviations beyond. Repeated text: every 2-entry env block over 5 names x 7 values x 4 caller envs x the precedence flag followed by command steps whose text repeats each block name and value: " +
+			"<=k deviations beyond. Repeated text: every 2-entry env block over 5 names x 9 values (incl. empty and set-versus-unset sensitive ones) x 4 caller envs x the precedence flag followed by command steps whose text repeats each block name and value: " +
 			"every step string is expanded once under the final environment (C10's reference fold). Non-trivial = more than three instrumented positions.",
 		Assumptions: []string{
 			"single-string expansion is delegated to github.com/buildkite/interpolate in the reference",
